@@ -208,3 +208,99 @@ func VerifModel_net_SplitHostPort(hp string) (string, string, error) {
 	}
 	return "", "", errors.New("missing port in address")
 }
+
+// ---- request forms. The harness states the decoded query and body parameters with SetForm;
+// natively they are encoded into RawQuery / a form body and parsed back by net/http. ----
+
+type formEntry struct {
+	query, body url.Values
+	bad         bool
+}
+
+var formTable = map[*http.Request]*formEntry{}
+
+// SetForm gives the request the decoded query parameters `query` and (if non-nil) the
+// url-encoded body parameters `body`; bad makes ParseForm fail (malformed encoding).
+func SetForm(r *http.Request, query, body url.Values, bad bool) {
+	r.URL.RawQuery = query.Encode()
+	if bad {
+		r.URL.RawQuery = "%zz"
+	}
+	if body != nil {
+		r.Header.Set("Content-Type", "application/x-www-form-urlencoded")
+		r.Body = io.NopCloser(strings.NewReader(body.Encode()))
+	}
+}
+
+func VerifModel_zzverif_SetForm(r *http.Request, query, body url.Values, bad bool) {
+	formTable[r] = &formEntry{query, body, bad}
+}
+
+func VerifModel_http_Request_ParseForm(r *http.Request) error {
+	if r.Form != nil {
+		return nil
+	}
+	e := formTable[r]
+	r.Form = url.Values{}
+	r.PostForm = url.Values{}
+	if e == nil {
+		return nil
+	}
+	// net/http: body parameters take precedence (come first), query parameters are appended
+	if e.body != nil && (r.Method == "POST" || r.Method == "PUT" || r.Method == "PATCH") {
+		for k, vv := range e.body {
+			for _, v := range vv {
+				r.PostForm.Add(k, v)
+				r.Form.Add(k, v)
+			}
+		}
+	}
+	for k, vv := range e.query {
+		for _, v := range vv {
+			r.Form.Add(k, v)
+		}
+	}
+	if e.bad {
+		return errors.New("invalid URL escape")
+	}
+	return nil
+}
+
+func VerifModel_http_Request_FormValue(r *http.Request, key string) string {
+	if r.Form == nil {
+		VerifModel_http_Request_ParseForm(r)
+	}
+	if vs := r.Form[key]; len(vs) > 0 {
+		return vs[0]
+	}
+	return ""
+}
+
+// (*url.URL).Query under the executor: the decoded query parameters stated with SetForm.
+func QueryOf(r *http.Request) url.Values { return r.URL.Query() }
+
+func VerifModel_zzverif_QueryOf(r *http.Request) url.Values {
+	if e := formTable[r]; e != nil {
+		return e.query
+	}
+	return url.Values{}
+}
+
+// (*url.URL).Hostname / Port for symbolic hosts: by the HostPort table (anything else has no port).
+func VerifModel_url_URL_Hostname(u *url.URL) string {
+	for _, e := range hostPorts {
+		if e.full == u.Host {
+			return e.host
+		}
+	}
+	return u.Host
+}
+
+func VerifModel_url_URL_Port(u *url.URL) string {
+	for _, e := range hostPorts {
+		if e.full == u.Host {
+			return e.port
+		}
+	}
+	return ""
+}
